@@ -98,11 +98,12 @@ type Stats struct {
 	Probes                              map[string]int
 	OpOutcome                           map[string]int // "<msg type>/<ok|fail>"
 	StateDigests                        map[string]struct{}
+	FaultCtx                            map[string]struct{}
 	Halted                              string
 }
 
 func newStats() *Stats {
-	return &Stats{Faults: map[string]int{}, Probes: map[string]int{}, OpOutcome: map[string]int{}, StateDigests: map[string]struct{}{}}
+	return &Stats{Faults: map[string]int{}, Probes: map[string]int{}, OpOutcome: map[string]int{}, StateDigests: map[string]struct{}{}, FaultCtx: map[string]struct{}{}}
 }
 
 type World struct {
@@ -179,6 +180,34 @@ func (w *World) Violate(prop, class, format string, a ...interface{}) {
 }
 
 func (w *World) Fault(kind string) { w.St.Faults[kind]++ }
+
+// FaultCtx records where a node-level fault landed: the kind together with what the interrupted
+// block contained (second reach measure of the evidence: distinct fault contexts).
+func (w *World) FaultCtx(kind string, rec *BlockRec, k int) {
+	if rec == nil {
+		return
+	}
+	ok, fail := 0, 0
+	for _, r := range rec.Res {
+		if r.Code == 0 {
+			ok++
+		} else {
+			fail++
+		}
+	}
+	bucket := func(n int) string {
+		switch {
+		case n == 0:
+			return "0"
+		case n <= 2:
+			return "1-2"
+		case n <= 6:
+			return "3-6"
+		}
+		return "7+"
+	}
+	w.St.FaultCtx[fmt.Sprintf("%s/k=%d/ok=%s/fail=%s", kind, k, bucket(ok), bucket(fail))] = struct{}{}
+}
 func (w *World) Probe(name string) { w.St.Probes[name]++ }
 
 // DCtx is the deliver-state context of the reference node (valid between BeginBlock and Commit).
@@ -746,6 +775,7 @@ func (w *World) catchUp(n *Node, upto int64, ev *NodeEvent) {
 
 func (w *World) die(n *Node, at string, committed bool, torn bool) {
 	w.Fault("node.crash@" + at)
+	w.FaultCtx("node.crash@"+at, n.curRec, n.curK)
 	n.App = nil
 	n.Down = true
 	n.crashTorn = torn
@@ -765,6 +795,10 @@ func (w *World) execOnReplica(n *Node, rec *BlockRec, crash *NodeEvent, ev *Node
 	}
 	hdr := MakeHeader(rec.Height, rec.Time, prevHash)
 	a := n.App
+	n.curRec, n.curK = rec, 0
+	if crash != nil {
+		n.curK = crash.K % 24
+	}
 	if ev != nil && ev.Proposal != "" {
 		w.replicaProposal(n, rec, ev.Proposal)
 	}
